@@ -6,7 +6,9 @@ import (
 
 	"go.nanomsg.org/mangos/v3"
 	"go.nanomsg.org/mangos/v3/protocol/pair"
+	"go.nanomsg.org/mangos/v3/protocol/pair1"
 	"go.nanomsg.org/mangos/v3/protocol/xpair"
+	"go.nanomsg.org/mangos/v3/protocol/xpair1"
 )
 
 func init() { props["C02"] = runC02 }
@@ -23,20 +25,39 @@ func seqOf(b []byte) int {
 
 // PAIR: single peer, in-order exactly-once both ways, refusal of a second peer
 func runPairScenario(c *Ctx, cooked bool, nops int, resize bool) {
+	runPairScenarioV(c, cooked, false, nops, resize)
+}
+
+// v1: PAIRv1 (pair1 / xpair1), the same machine behind a constant hop header
+func runPairScenarioV(c *Ctx, cooked, v1 bool, nops int, resize bool) {
 	var proto mangos.ProtocolBase
-	if cooked {
+	switch {
+	case cooked && !v1:
 		proto = pair.NewProtocol()
-	} else {
+	case !cooked && !v1:
 		proto = xpair.NewProtocol()
+	case cooked && v1:
+		proto = pair1.NewProtocol()
+	default:
+		proto = xpair1.NewProtocol()
 	}
 	e := NewExec(c, "m.pair", proto, "pair")
+	var sendHdr []byte
+	if v1 {
+		zero := []byte{0, 0, 0, 0}
+		e.injectPrefix, e.txHdrStrip, e.rxHdrStrip = zero, zero, []byte{0, 0, 0, 1}
+		if !cooked {
+			sendHdr = zero // the raw socket's user supplies the hop header; the trace shows it on both sides
+			e.txHdrStrip = nil
+		}
+	}
 	peer := 0
 	next := 300
 	held := false
 	seq := 0
-	accepted := []int{}   // sequence numbers whose Send returned ok, in call order (single sender goroutine at a time)
+	accepted := []int{}     // sequence numbers whose Send returned ok, in call order (single sender goroutine at a time)
 	sentOK := map[int]int{} // call -> seq
-	var txSeqs []int       // what the peer was handed, in order
+	var txSeqs []int        // what the peer was handed, in order
 	rseq := 0
 	var rxSeqs []int
 	faults := false
@@ -93,7 +114,7 @@ func runPairScenario(c *Ctx, cooked bool, nops int, resize bool) {
 		case k < 10:
 			seq++
 			b := seqBody(c, seq)
-			e.Send(0, nil, b)
+			e.Send(0, sendHdr, b)
 			sentOK[e.ncall] = seq
 			look()
 		case k < 14:
@@ -173,6 +194,9 @@ func runC02(c *Ctx) {
 	}
 	for i := 0; i < n; i++ {
 		runPairScenario(c, i%2 == 0, 50, i%3 == 0)
+	}
+	for i := 0; i < n/2; i++ {
+		runPairScenarioV(c, i%2 == 0, true, 50, i%3 == 0)
 	}
 	runPushPullScenarios(c)
 	c02EndToEnd(c)
